@@ -700,15 +700,41 @@ def _cls_state(c):
     return out
 
 
-def table_fingerprint():
-    """cheap part of process_state: the id <-> class tables, the counters and each class's own type_id / field list"""
+def table_fingerprint(classes=True):
+    """cheap part of process_state: the id <-> class tables, the counters, the sizes of every process-level container and
+    (classes=True) each class's own type_id / field list / identity of its class-level defaults"""
     T = S.SerializableType
+    if not classes:
+        return (tuple(T.registry.items()), tuple(T.names.items()), T.next_type_id, tuple(T.custom_id.items()),
+                tuple(S.SerializableEnumType._enums.items()), S.MAX_BYTES_LENGTH, S.MAX_ARRAY_LENGTH, tuple(_container_sizes()))
     return (tuple((t, id(c)) for t, c in T.registry.items()),
             tuple((n, id(c)) for n, c in T.names.items()),
             T.next_type_id, tuple(T.custom_id.items()),
             tuple((n, id(c)) for n, c in S.SerializableEnumType._enums.items()),
-            tuple((getattr(c, "type_id", None), getattr(c, "_fields", None)) for c in T.registry.values()),
-            len(S.serialize_types), len(S.deserialize_types), S.MAX_BYTES_LENGTH, S.MAX_ARRAY_LENGTH)
+            tuple((getattr(c, "type_id", None), getattr(c, "_fields", None),
+                   tuple(id(c.__dict__.get(f)) for f in getattr(c, "_fields", None) or ())) for c in T.registry.values()),
+            S.MAX_BYTES_LENGTH, S.MAX_ARRAY_LENGTH, tuple(_container_sizes()))
+
+
+def _containers():
+    """(label, object) of every dict / list / set held at module level of serializable.py or on its two metaclasses and two base
+    classes — the known tables and anything a later version may add there (caches)"""
+    for owner, ns in (("serializable", vars(S)), ("SerializableType", vars(S.SerializableType)),
+                      ("SerializableEnumType", vars(S.SerializableEnumType)), ("Serializable", vars(S.Serializable)),
+                      ("SerializableEnum", vars(S.SerializableEnum))):
+        for k, v in list(ns.items()):
+            if isinstance(v, (dict, list, set)) and not (k.startswith("__") and k.endswith("__")):
+                yield "%s.%s" % (owner, k), v
+
+
+_KNOWN_CONTAINERS = []
+
+
+def _container_sizes():
+    """sizes of the containers seen by the last full scan (process_state() rescans the namespaces)"""
+    if not _KNOWN_CONTAINERS:
+        _KNOWN_CONTAINERS.extend(_containers())
+    return [(label, len(v)) for label, v in _KNOWN_CONTAINERS]
 
 
 def process_state():
@@ -726,6 +752,14 @@ def process_state():
         "Serializable methods": sorted((k, cls_label(v)) for k, v in S.Serializable.__dict__.items() if callable(v) or isinstance(v, (staticmethod, classmethod))),
         "SerializableEnum methods": sorted((k, cls_label(v)) for k, v in S.SerializableEnum.__dict__.items() if callable(v) or isinstance(v, (staticmethod, classmethod))),
     }
+    del _KNOWN_CONTAINERS[:]
+    _KNOWN_CONTAINERS.extend(_containers())
+    for label, v in _KNOWN_CONTAINERS:
+        if label not in st and ("container " + label) not in st:
+            try:
+                st["container " + label] = sorted(repr(k)[:80] for k in v) if not isinstance(v, list) else [repr(k)[:80] for k in v][:200]
+            except Exception:       # noqa
+                st["container " + label] = len(v)
     seen = set()
     for c in list(T.registry.values()) + list(T.names.values()):
         if id(c) not in seen:
